@@ -341,6 +341,10 @@ func c17complete(c *Ctx, tag, path string, m *model.Seg, mode uint32, rng *rand.
 
 func c17merge(c *Ctx, i int, rng *rand.Rand) {
 	nl := 2 + rng.Intn(2)
+	single := (i/4)%3 == 2 // a third of the merge cases: one input, nothing dropped
+	if single {
+		nl = 1
+	}
 	var bs []*model.Batch
 	var ms []*model.Seg
 	same := rng.Intn(2) == 0
@@ -350,7 +354,11 @@ func c17merge(c *Ctx, i int, rng *rand.Rand) {
 		if same {
 			o.Names, o.Syn, o.Vec = names, false, false
 		}
-		b := model.Gen(rng, []string{"small", "one", "mid", "empty"}[rng.Intn(4)], o)
+		cls := []string{"small", "one", "mid", "empty"}
+		if single {
+			cls = []string{"small", "mid", "mid", "deep"}
+		}
+		b := model.Gen(rng, cls[rng.Intn(4)], o)
 		bs = append(bs, b)
 		ms = append(ms, model.Build(b))
 	}
@@ -358,6 +366,9 @@ func c17merge(c *Ctx, i int, rng *rand.Rand) {
 	for _, m := range ms {
 		st := 3
 		if same && rng.Intn(2) == 0 {
+			st = 0
+		}
+		if single {
 			st = 0
 		}
 		drops = append(drops, randDrops(rng, m.NumDocs, st))
